@@ -136,7 +136,7 @@ def plan(tier, seed):
         for extra in (1, 1025):
             cases.append({'kind': 'oversize', 'variant': v, 'extra': extra, 'fifo': True})     # not a regular file: no size to stat
     rng = random.Random('c19-plan-%d' % seed)
-    maxp = 4 if tier == 'quick' else 6
+    maxp = 4 if tier == 'quick' else 12
     codes_small = STATUS if tier == 'thorough' else None
     for npages in range(1, maxp + 1):
         nops = 3 * npages
@@ -154,7 +154,7 @@ def plan(tier, seed):
             if npages > pages:
                 continue
             nops = 3 * npages
-            for k in sorted({0, npages - 1, npages, nops // 2, nops - 2, nops - 1}):
+            for k in (sorted({0, npages - 1, npages, nops // 2, nops - 2, nops - 1}) if tier == 'quick' else range(nops)):     # thorough: every step of a full image
                 for stall in (True, False):
                     for s in ([4, 6, 7, 8] if tier == 'quick' else STATUS):
                         cases.append({'kind': 'fault', 'variant': v, 'npages': npages, 'inject': [[k, s]], 'stall': stall, 'short': 3})
@@ -168,7 +168,7 @@ def plan(tier, seed):
             for s in VENDOR:
                 for stall in (True, False):
                     cases.append({'kind': 'fault', 'variant': '4', 'npages': npages, 'inject': [[k, s]], 'stall': stall, 'short': 0})
-    nsh = 64 if tier == 'quick' else 256
+    nsh = 64 if tier == 'quick' else 1024
     cases.sort(key=lambda c: -c.get('npages', 0))
     shards = [{'cases': cases[i::nsh]} for i in range(nsh)]
     return {'shards': shards, 'budget_s': 300 if tier == 'quick' else 3000, 'extra_cov': {'fault_plans': len(cases)},
